@@ -821,6 +821,39 @@ fn worker_cfg(w: &mut WorkerCtx) {
         let key = if idx % CFG_FRESH_EVERY == 0 { Some(format!("c{}", idx)) } else { None };
         report_cfg(w, c, e, key);
     }
+    // the same cases (entry kind 0) once more in another order: HOME changes from one call to the next while
+    // everything else stays as it is (the sweep above changes HOME slowest). A lookup answers for the
+    // environment as it is now, whatever an earlier lookup in the same process saw
+    let mut group = 0u64;
+    for b in 0..2u64 {
+        for x in 0..3u64 {
+            for d in 0..6u64 {
+                for mask in 0..32u64 {
+                    group += 1;
+                    if !w.mine(group) {
+                        continue;
+                    }
+                    for h in [0u64, 2, 1, 2, 0] {
+                        let idx = (((b * 3 + h) * 3 + x) * 6 + d) * 32 + mask;
+                        let c = match cfg_case(idx) {
+                            Some(c) => c,
+                            None => continue,
+                        };
+                        TICK.fetch_add(1, Ordering::Relaxed);
+                        let l = layout(&cfg_area(&root, c, &format!("s{}", w.shard)));
+                        for (k, v) in l.env(c.h, c.x, c.d) {
+                            set_opt(k, &v);
+                        }
+                        let e = eval_cfg(c, &l);
+                        w.count("cfg_cases_reordered", 1);
+                        for (sig, detail) in e.findings {
+                            w.vio(&format!("{} [after lookups under another HOME in the same process]", sig), || detail, || cfg_case_json(c));
+                        }
+                    }
+                }
+            }
+        }
+    }
     let _ = std::env::set_current_dir("/");
 }
 
@@ -1129,6 +1162,13 @@ pub fn run(ctx: &Ctx) -> i32 {
     let cfg_expected = (0..CFG_N).filter(|i| cfg_case(*i).is_some()).count() as u64;
     let rids_expected = (SUDO_UIDS.len() * SUDO_GIDS.len() * UIDS.len() * GIDS.len()) as u64;
     let shapes_expected = LISTS.iter().map(|(_, p, q)| list_shapes(p, q).len() as u64).sum::<u64>();
+    let reordered_expected: u64 = (0..2u64)
+        .flat_map(|b| (0..3u64).flat_map(move |x| (0..6u64).flat_map(move |d| (0..32u64).flat_map(move |m| [0u64, 2, 1, 2, 0].into_iter().map(move |h| (((b * 3 + h) * 3 + x) * 6 + d) * 32 + m)))))
+        .filter(|i| cfg_case(*i).is_some())
+        .count() as u64;
+    if total.c("cfg_cases_reordered") != reordered_expected {
+        machinery_errors.push(format!("cfg_cases_reordered = {} but {} expected", total.c("cfg_cases_reordered"), reordered_expected));
+    }
     for (k, want) in [("dirs_configs", sp.n()), ("dirs_shape_configs", shapes_expected), ("dirs_foreign_configs", 2 * FOREIGN.len() as u64), ("cfg_cases", cfg_expected), ("rids_cases", rids_expected)] {
         if total.c(k) != want {
             machinery_errors.push(format!("{} = {} but {} expected", k, total.c(k), want));
@@ -1151,6 +1191,7 @@ pub fn run(ctx: &Ctx) -> i32 {
         ("dirs_function_calls", J::i(total.c("dirs_calls"))),
         ("dirs_list_shape_configurations", J::i(total.c("dirs_shape_configs"))),
         ("config_dir_cases", J::i(total.c("cfg_cases"))),
+        ("config_dir_cases_rerun_with_home_changing_between_consecutive_calls", J::i(total.c("cfg_cases_reordered"))),
         ("getrids_calls", J::i(total.c("rids_cases"))),
         ("fresh_process_reruns_compared", J::i(compared)),
         (
